@@ -796,8 +796,10 @@ class LLMRails:
             await streaming_handler.push_chunk(None)
 
         # IF tracing is enabled we need to set GenerationLog attrs
+        options_created_for_tracing = False
         if self.config.tracing.enabled:
             if options is None:
+                options_created_for_tracing = True
                 options = GenerationOptions()
             if (
                 not options.log.activated_rails
@@ -910,7 +912,13 @@ class LLMRails:
                     input=messages, response=res, adapters=self._log_adapters
                 )
                 await tracer.export_async()
-                res = res.response[0]
+
+                # If the options were only created for the tracing, the caller expects
+                # the same result as without generation options
+                if options_created_for_tracing:
+                    if prompt:
+                        return res.response
+                    return res.response[0]
             return res
         else:
             # If a prompt is used, we only return the content of the message.
